@@ -1,16 +1,43 @@
 package main
 
+import "strings"
+
 func init() {
 	register(&propInfo{
 		ID:          "C05",
-		Explanation: "Decides the Size/Append/framing laws for every codec of the universe (28 types incl. JSON, BigQuery, null) and the JSON value functions: the encoder bodies are evaluated symbolically over the typed AST into emission terms (append → RAW/VARUINT/VARINT/FIX/SUB atoms, conditionals, loops and type switches as term constructors, module helpers inlined, recursive definitions as atoms with their partner) and (S.law) Size(ptr, tag) must be syntactically equal, after AC-normalisation, to Φ(Append(data, ptr, tag)) - i.e. the reported size is the number of appended bytes for all values, with and without tag, and by induction over SUB for all nestings; (S.frame) a length-delimited codec's tagged form is tag · varuint(Φ(body)) · body with the same body as the untagged form (every length prefix is exact); (S.pair) Append and Size come from the same type; (T.mem) all pointer-taking methods of a codec reinterpret ptr as the same type; (T.fixedsize/T.szu-small) the two lemmas used (fixed-width codecs' Size ignores ptr; SizeVarUint(v)=1 for v<0x80) are checked against the code.",
-		NotDecided:  "'Reading a body back consumes exactly its length' (BOUND only proves <=); that the primitives SizeVarUint/AppendVarUint agree numerically (C18, not applicable part).",
+		Explanation: "Decides the Size/Append/framing laws for every codec of the universe (28 types incl. JSON, BigQuery, null) and the JSON value functions: the encoder bodies are evaluated symbolically over the typed AST into emission terms (append → RAW/VARUINT/VARINT/FIX/SUB atoms, conditionals, loops and type switches as term constructors, module helpers inlined, recursive definitions as atoms with their partner) and (S.law) Size(ptr, tag) must be syntactically equal, after AC-normalisation, to Φ(Append(data, ptr, tag)) - i.e. the reported size is the number of appended bytes for all values, with and without tag, and by induction over SUB for all nestings; (S.frame) a length-delimited codec's tagged form is tag · varuint(Φ(body)) · body with the same body as the untagged form (every length prefix is exact); (S.pair) Append and Size come from the same type; (B.exact) for every length-delimited leaf/struct codec (strings, bytes, interned strings, structs, times, the null string/time codecs) BOUND infers and re-derives on every run the contract err == nil => n == len(data): reading a body back consumes exactly its length; (T.mem) all pointer-taking methods of a codec reinterpret ptr as the same type; (T.fixedsize/T.szu-small) the two lemmas used (fixed-width codecs' Size ignores ptr; SizeVarUint(v)=1 for v<0x80) are checked against the code.",
+		NotDecided:  "Exact consumption for the slice wrappers and map codecs (needs a relation between their counting and reading loops; only <= is proved there); that the primitives SizeVarUint/AppendVarUint agree numerically (C18, not applicable part).",
 		Assumptions: []string{"A4", "A5"},
 		Run: func(c *Ctx) {
 			ruleSizeLaw(c)
 			ruleFrame(c)
 			ruleMemAll(c)
 			ruleEmitLemmas(c)
+			ruleExactConsumption(c)
 		},
 	})
+}
+
+// ruleExactConsumption: B.exact.
+func ruleExactConsumption(c *Ctx) {
+	p := c.P
+	B := decodeBound(p)
+	for _, ct := range p.Codecs {
+		consts, delegated, ok := p.wireInfo(ct)
+		if !ok || delegated || len(consts) != 1 || consts[0] != "WTLength" {
+			continue
+		}
+		if strings.Contains(ct.Name, "SliceWrapper") || strings.Contains(ct.Name, "ProtoMap") {
+			continue // containers: exactness depends on the relation between two loops, not decided
+		}
+		f := p.SSA.FuncValue(ct.Methods["Read"].Fn)
+		have := map[string]bool{}
+		for _, s := range B.contractSummary(f) {
+			have[s] = true
+		}
+		okc := have["post: err==nil => n >= len(data)"] && have["post: err==nil => n <= len(data)"]
+		c.Oblige("B.exact", okc, f.Pos(), ct.Name, "Read consumes exactly len(data)",
+			"a length-delimited body is handed to its codec as exactly its bytes; the codec must report having consumed all of them (n == len(data)), otherwise the enclosing reader desynchronises", nil)
+	}
+	c.Floor("B.exact", 9)
 }
